@@ -1,6 +1,7 @@
 package sim
 
 import (
+	"reflect"
 	"fmt"
 	"net"
 	"strings"
@@ -179,7 +180,7 @@ func (w *GenWorld) judge(op *Op, o *genObj, addr net.Addr, err error, before int
 	if s, ok := o.pc.(*UDPSock); ok && s != nil {
 		bound = s.bound
 	}
-	if l, ok := o.ln.(*TCPListener); ok && l != nil {
+	if l := simListenerOf(o.ln); l != nil {
 		bound = &net.UDPAddr{IP: l.Bound.IP, Port: l.Bound.Port}
 	}
 	if bound == nil {
@@ -256,4 +257,34 @@ func runGenWorld(t *testing.T, k *Kernel, p *Plan, rec *RunRecord) {
 	fillRecord(rec, k, reason)
 	rec.Requests = w.results + 3
 	rec.States = w.rand.Calls
+}
+
+// simListenerOf: the simnet listener behind what a generator returned - the listener itself, or
+// one a wrapper struct embeds as its net.Listener (a generator may keep books on Close).
+func simListenerOf(ln net.Listener) *TCPListener {
+	for depth := 0; ln != nil && depth < 4; depth++ {
+		if l, ok := ln.(*TCPListener); ok {
+			return l
+		}
+		v := reflect.ValueOf(ln)
+		for v.Kind() == reflect.Pointer || v.Kind() == reflect.Interface {
+			if v.IsNil() {
+				return nil
+			}
+			v = v.Elem()
+		}
+		if v.Kind() != reflect.Struct {
+			return nil
+		}
+		f := v.FieldByName("Listener")
+		if !f.IsValid() || !f.CanInterface() {
+			return nil
+		}
+		inner, ok := f.Interface().(net.Listener)
+		if !ok {
+			return nil
+		}
+		ln = inner
+	}
+	return nil
 }
